@@ -40,15 +40,26 @@ class Heap:
             self.arr[name] = z3.Array(f"H_{name}", *([I] * nidx), sort if sort is not None else Rl)
         return self.arr[name]
 
+    VEC = 4      # vector fields (position, dim <= 3) are flattened: index = ref * VEC + j  (standard 1-index arrays)
+
+    def _flat(self, name, idx):
+        if name in self.FLAT and len(idx) == 2:
+            return (to_z3(idx[0]) * self.VEC + to_z3(idx[1]),)
+        return tuple(to_z3(i) for i in idx)
+
+    FLAT = {"position"}
+
     def read(self, name, *idx, sort=None):
-        return z3.Select(self.array(name, len(idx), sort), *[to_z3(i) for i in idx])
+        idx = self._flat(name, idx)
+        return z3.Select(self.array(name, len(idx), sort), *idx)
 
     def write(self, name, val, *idx, sort=None):
+        idx = self._flat(name, idx)
         a = self.array(name, len(idx), sort)
         v = to_z3(val)
         if a.range() == Rl and z3.is_int(v):
             v = z3.ToReal(v)
-        self.arr[name] = z3.Store(a, *[to_z3(i) for i in idx], v)
+        self.arr[name] = z3.Store(a, *idx, v)
 
     def new_ref(self):
         r = self.alloc0 + self.n
@@ -342,16 +353,18 @@ class SListObj(SObj):
             ok = i >= 0
         else:
             ok = z3.And(i >= 0, i < L)
-        if not run.branch(ok):
-            raise SymRaise(SExc("IndexError", ("list index out of range",)))
+        if getattr(run, "try_depth", 0) > 0:
+            if not run.branch(ok):
+                raise SymRaise(SExc("IndexError", ("list index out of range",)))
+        else:
+            run.oblige(f"list index in range ({self.tag})", ok, kind="implicit")
         return self.at(i)
 
     def raw_pop(self, run, idx=None):
         from .engine import SymRaise
         L = to_z3(self.length)
         i = L - 1 if idx is None else to_z3(idx)
-        if not run.branch(z3.And(i >= 0, i < L)):
-            raise SymRaise(SExc("IndexError", ("pop index out of range",)))
+        run.oblige(f"pop index in range ({self.tag})", z3.And(i >= 0, i < L), kind="implicit")
         val = self.at(i)
         k = z3.Int("k")
         old = self.elems
